@@ -51,7 +51,43 @@ inductive GoTy
   | struct (ts : List GoTy)
   | udtmap
   | udtstruct (names : List String) (ts : List GoTy)
-deriving Repr, BEq
+deriving Repr
+
+/- structural equality of Go types, written out (a derived `BEq` of a nested inductive is an opaque definition, about
+   which nothing can be proved; the decoders compare a target type with goType(elem)) -/
+mutual
+def GoTy.beqT : GoTy → GoTy → Bool
+  | .int k n, .int k' n' => decide (k = k') && n == n'
+  | .str n, .str n' => n == n'
+  | .bytes n, .bytes n' => n == n'
+  | .bool n, .bool n' => n == n'
+  | .f32 n, .f32 n' => n == n'
+  | .f64 n, .f64 n' => n == n'
+  | .big, .big => true
+  | .dec, .dec => true
+  | .time, .time => true
+  | .dur, .dur => true
+  | .cqldur, .cqldur => true
+  | .uuid, .uuid => true
+  | .arr16, .arr16 => true
+  | .ip, .ip => true
+  | .ptr a, .ptr b => GoTy.beqT a b
+  | .slice a, .slice b => GoTy.beqT a b
+  | .array n a, .array m b => n == m && GoTy.beqT a b
+  | .map k v, .map k' v' => GoTy.beqT k k' && GoTy.beqT v v'
+  | .iface, .iface => true
+  | .ifaces as, .ifaces bs => GoTy.beqTs as bs
+  | .struct as, .struct bs => GoTy.beqTs as bs
+  | .udtmap, .udtmap => true
+  | .udtstruct ns as, .udtstruct ms bs => ns == ms && GoTy.beqTs as bs
+  | _, _ => false
+def GoTy.beqTs : List GoTy → List GoTy → Bool
+  | [], [] => true
+  | a :: as, b :: bs => GoTy.beqT a b && GoTy.beqTs as bs
+  | _, _ => false
+end
+
+instance : BEq GoTy := ⟨GoTy.beqT⟩
 
 inductive MRes
   | ok (b : Option Bytes)     -- ([]byte, nil); `none` = nil slice = CQL null
